@@ -159,12 +159,17 @@ static void run(int tier, int prog) {
     }
     if (tok[0] != 'c' && tok[0] != 'y') {
       reaps++;
-      if (reaps == 1 && cur->recycle_check) {
-	/* let a detached target finish and release before the snapshot */
+      if (cur->recycle_check) {
+	/* let a detached target finish and release its record and stack before the snapshot / before the next creation:
+	   "reaping recycles" can only be judged for creations that follow a completed reap */
 	while (!fin[i]) mv_wait_until_changed(&fin[i], sizeof(int));
 	mv_quiesce();
-	fresh_after_first_d = mv_ledger_fresh(0); fresh_after_first_s = mv_ledger_fresh(1);
+	if (reaps == 1) { fresh_after_first_d = mv_ledger_fresh(0); fresh_after_first_s = mv_ledger_fresh(1); }
       }
+    } else if (tok[0] == 'c' && tok[1] == 'n' && cur->recycle_check) {
+      int me = nth - 1;   /* created detached: it reaps itself; same reasoning */
+      while (!fin[me]) mv_wait_until_changed(&fin[me], sizeof(int));
+      mv_quiesce();
     }
   }
   /* quiescence: every thread finished, detached ones released their record themselves */
